@@ -5,6 +5,7 @@
 import CedarGo.Model.Text.Layout
 import CedarGo.Model.Text.Fragment
 import CedarGoProofs.Lemmas.C07Escape
+import CedarGoProofs.Lemmas.C07Like
 namespace CedarGo.Text
 open CedarGo
 
@@ -201,6 +202,43 @@ theorem lexable_str (s : String) : Lexable (strT s) := by
   show (String.ofList _).toList = _
   rw [String.toList_ofList]
 
+/-! ## pattern literals: `Pattern.MarshalCedar` produces a `StrBody` (the scanner accepts the escape `\*`) -/
+
+theorem strBody_escStar (c : Char) {cs : List Char} (h : StrBody cs) : StrBody (escapeStars (escapeRune c true) ++ cs) := by
+  by_cases hc : c = '*'
+  · subst hc
+    rw [escapeRune_star]
+    exact .esc '*' cs (by decide) h
+  · rw [escapeStars_noStar _ (escapeRune_noStar c true hc)]
+    exact strBody_escapeRune c true h
+
+theorem strBody_dpEsc (l : List Char) {cs : List Char} (h : StrBody cs) : StrBody (dpEsc l ++ cs) := by
+  induction l with
+  | nil => exact h
+  | cons c l ih =>
+    rw [dpEsc_cons, List.append_assoc]
+    exact strBody_escStar c ih
+
+theorem strBody_dpRender : ∀ dp : DPat, StrBody (dpRender dp)
+  | [] => .nil
+  | (w, l) :: rest => by
+    have h := strBody_dpEsc l (strBody_dpRender rest)
+    cases w with
+    | false => simpa [dpRender] using h
+    | true =>
+      have e : dpRender ((true, l) :: rest) = '*' :: (dpEsc l ++ dpRender rest) := by simp [dpRender]
+      rw [e]
+      exact .raw '*' _ (by decide) (by decide) (by decide) (by decide) h
+
+/-- the pattern-literal token of a pattern in `NewPattern` normal form is written the way the scanner reads it -/
+theorem lexable_patT (p : Pattern) (h : patOK p = true) (t : Token) (ht : patT p = some t) : Lexable t := by
+  obtain ⟨dp, _, hesc⟩ := decode_pat p (patOK_all h)
+  simp only [patT, hesc, Option.some.injEq] at ht
+  subst ht
+  refine ⟨dpRender dp, ?_, strBody_dpRender dp⟩
+  show (String.ofList _).toList = _
+  rw [String.toList_ofList]
+
 /-! ## expressions -/
 
 theorem allLex_wrapIf (b : Bool) {ts : List Token} (h : AllLex ts) : AllLex (wrapIf b ts) := by
@@ -301,7 +339,11 @@ theorem allLex_render (full : Bool) : ∀ (e : Expr), inFrag full e = true → A
     simp only [inFrag] at h
     rw [render]
     exact .append (allLex_wrapIf _ (allLex_render full e h)) (.cons lexable_has (.cons (lexable_attrTok full a) .nil))
-  | .like _ _, h => by simp [inFrag] at h
+  | .like e p, h => by
+    simp only [inFrag, Bool.and_eq_true] at h
+    obtain ⟨t, ht, _⟩ := patT_roundtrip p h.2
+    rw [render, ht]
+    exact .append (allLex_wrapIf _ (allLex_render full e h.1)) (.cons lexable_like (.cons (lexable_patT p h.2 t ht) .nil))
   | .is e ty, h => by
     simp only [inFrag, Bool.and_eq_true] at h
     rw [render]
